@@ -439,4 +439,5 @@ func checkC13(c *runCtx) {
 	csExplore(c, "refcount-udp", b, dl, nil)
 	csExplore(c, "refcount-udp-addrport", b-1, dl, nil)
 	csExplore(c, "refcount-tcp", b, dl, nil)
+	csExplore(c, "refcount-udp-inbound", b, dl, nil)
 }
